@@ -54,7 +54,7 @@ class C02(Check):
         "cases: (a) every word of length 1..3 (quick) / 1..4 (thorough) over the 12 element kinds {call, notification} x {succeeds, "
         "unknown method, params do not bind, raises protocol error, raises exception, not a valid request object} x 2 dispatchers x an id "
         "typing (integers from 1, from 0, numeric strings, negatives, the mix '', '1', 1, 0, growing strings), enumerated; (b) Hypothesis-"
-        "generated singles and batches of 0..6 elements over the 14-method registry with duplicate ids injected at chosen position pairs "
+        "generated singles and batches of 0..6 elements over the 15-method registry with duplicate ids injected at chosen position pairs "
         "(1/1, '1'/'1', 1/'1' which is not a duplicate, 0/0, ''/''), max_batch_size around the length, generated behaviours. Oracles: "
         "reference server (document equality, ids type-exact), metamorphic (accepted batch == concatenation of each element dispatched "
         "alone on a fresh dispatcher; nothing if none answers), execution log == the reference's executions (ordered for the sync "
@@ -203,7 +203,7 @@ MANIFEST = dict(
         "Every batch shape over the 12 element kinds up to length 3 (quick) / 4 (thorough) is enumerated for both dispatchers, and "
         "generated batches with duplicate ids, mixed id typings and max_batch_size around the length are sampled. Three oracles: an "
         "independent reference server, the batch == singles metamorphic relation, and the log of instrumented methods. Bounded "
-        "exploration (batches <= 6, 14 methods); no claim beyond the explored space."
+        "exploration (batches <= 6, 15 methods); no claim beyond the explored space."
     ),
     level_note="trusts pbt/refserver.py (does not import pjrpc), python's json and call binding; library error wording is not compared",
 )
